@@ -58,6 +58,7 @@ void rt_env_release();                    // frees spacers / deferred blocks of 
 AllocStats& rt_alloc_stats();
 void rt_reset_alloc_stats();
 uint32_t rt_num_guards();
+uint32_t* rt_guard_counts(bool enable);     // debugging aid
 const unsigned char* rt_guard_hits();     // [0..num_guards] byte per guard: hit at least once
 void rt_clear_guard_hits();
 uint64_t rt_total_steps();                // all tasks, whole process
